@@ -74,6 +74,9 @@ class HampelFilter(_SeriesToSeriesTransformer):
         """
         self.check_is_fitted()
         Z = check_series(Z)
+        # work on a copy: the filter writes its result by position (Z.iloc[j] = ...,
+        # Z[col] = ...) and must not modify the caller's data
+        Z = Z.copy()
 
         # multivariate
         if isinstance(Z, pd.DataFrame):
